@@ -113,6 +113,7 @@ def install(taps: Taps, ctx: Ctx) -> None:
         def __init__(self, object_results, *args, **kwargs):
             snap = [list(fr) for fr in object_results]
             orig(self, object_results, *args, **kwargs)
+            self._verif_snap = snap
             ctx.count("CLEAR.calls")
             guarded(ctx, "CLEAR", lambda: judge(ctx, self, snap))
 
@@ -432,12 +433,35 @@ def run(ctx: Ctx) -> None:
                 mota, motp, sw = ts._sum_clear()
                 ctx.check(sw == sum(c.id_switch for c in ts.clears), "C05/sum_clear_switches", dict(sw=sw), "CLEAR")
 
+            # the history a scene-level CLEAR is given is the evaluated frames in the order they were evaluated (frame i of
+            # the history holds results of the i-th add_frame_result call, identified by object identity)
+            for ts in scene.tracking_scores:
+                for c in ts.clears:
+                    snap = getattr(c, "_verif_snap", None)
+                    if snap is None:
+                        continue
+                    ctx.count("CLEAR.scene_histories_checked")
+                    ok = len(snap) == len(run.results) + 1 and len(snap[0]) == 0
+                    bad = None
+                    if ok:
+                        for i, fr in enumerate(run.results):
+                            own = {id(x) for x in fr.object_results}
+                            if any(id(x) not in own for x in snap[i + 1]):
+                                ok, bad = False, i
+                                break
+                            if snap[i + 1]:
+                                ctx.count("CLEAR.scene_history_frames_nonempty")
+                    ctx.check(ok, "C05/scene_history_frames_not_in_evaluation_order", dict(n_frames=len(run.results), history_len=len(snap), first_bad_frame=bad, frame_names=[fr.frame_name for fr in run.results][:30]), "CLEAR")
+
         import vf.scenario as S
 
         orig_gen = S.gen_scenario
         S.gen_scenario = lambda r, **kw: orig_gen(r, task="tracking", big=True)
         try:
             run_manager_scenarios(ctx, "scenario", 24 if ctx.quick else 2500, after=tracking_only)
+            # recordings long enough for frame numbers to cross a power of ten
+            S.gen_scenario = lambda r, **kw: orig_gen(r, task="tracking", n_frames=r.randint(11, 14) if ctx.quick else r.choice([11, 12, 21, 30, 101][: 4 if r.random() < 0.97 else 5]))
+            run_manager_scenarios(ctx, "long_scenario", 4 if ctx.quick else 160, after=tracking_only)
         finally:
             S.gen_scenario = orig_gen
         ctx.notes["taps"] = taps.installed
